@@ -96,14 +96,60 @@ pub(crate) mod verif_probe {
         cfg.general.admin_username = "admin".to_string();
         cfg.general.admin_password = "adminpw".to_string();
         let dbname = db.clone().unwrap_or(user.clone());
+        // auth_query pools: no cleartext password; the secret is the MD5 hash a (fake) PostgreSQL hands out for the auth query
+        let authq = kind.starts_with("authquery");
+        let first_pass = { use md5::{Digest, Md5}; let mut h = Md5::new(); h.update(b"secret"); h.update(user.as_bytes()); format!("{:x}", h.finalize()) };
+        let mut server_port: u16 = 1;
+        if authq {
+            use tokio::io::AsyncWriteExt;
+            let l = tokio::net::TcpListener::bind("127.0.0.1:0").await.unwrap();
+            server_port = l.local_addr().unwrap().port();
+            let (u2, h2) = (user.clone(), first_pass.clone());
+            tokio::spawn(async move {
+                loop {
+                    let (mut sock, _) = match l.accept().await { Ok(c) => c, Err(_) => return };
+                    let (u3, h3) = (u2.clone(), h2.clone());
+                    tokio::spawn(async move {
+                        let len = match sock.read_i32().await { Ok(l) => l, Err(_) => return };
+                        let mut startup = vec![0u8; len as usize - 4];
+                        if sock.read_exact(&mut startup).await.is_err() { return; }
+                        let mut out = BytesMut::new();
+                        out.put_u8(b'R'); out.put_i32(8); out.put_i32(0);
+                        out.put(crate::messages::server_parameter_message("server_version", "14.0"));
+                        out.put_u8(b'K'); out.put_i32(12); out.put_i32(7); out.put_i32(1234);
+                        out.put(crate::messages::ready_for_query(false));
+                        if sock.write_all(&out).await.is_err() { return; }
+                        loop {
+                            let code = match sock.read_u8().await { Ok(c) => c, Err(_) => return };
+                            let len = match sock.read_i32().await { Ok(l) => l, Err(_) => return };
+                            let mut body = vec![0u8; (len as usize).saturating_sub(4)];
+                            if sock.read_exact(&mut body).await.is_err() { return; }
+                            if code == b'X' { return; }
+                            if code != b'Q' { continue; }
+                            let mut out = BytesMut::new();
+                            out.put(crate::messages::row_description(&vec![("usename", crate::messages::DataType::Text), ("passwd", crate::messages::DataType::Text)]));
+                            out.put(crate::messages::data_row(&vec![u3.clone(), format!("md5{}", h3)]));
+                            out.put(crate::messages::command_complete("SELECT 1"));
+                            out.put(crate::messages::ready_for_query(false));
+                            if sock.write_all(&out).await.is_err() { return; }
+                        }
+                    });
+                }
+            });
+        }
         if kind != "none" {
             let mut pool = crate::config::Pool::default();
             pool.shards.clear();
             pool.shards.insert("0".to_string(), crate::config::Shard { database: "x".to_string(), mirrors: None,
-                servers: vec![crate::config::ServerConfig { host: "127.0.0.1".to_string(), port: 1, role: crate::config::Role::Primary }] });
+                servers: vec![crate::config::ServerConfig { host: "127.0.0.1".to_string(), port: server_port, role: crate::config::Role::Primary }] });
+            if authq {
+                pool.auth_query = Some("SELECT usename, passwd FROM pg_shadow WHERE usename='$1'".to_string());
+                pool.auth_query_user = Some("lookup".to_string());
+                pool.auth_query_password = Some("lookup".to_string());
+            }
             let mut u = crate::config::User::default();
             u.username = user.clone();
-            u.password = Some("secret".to_string());
+            u.password = if authq { None } else { Some("secret".to_string()) };
             u.auth_type = if kind == "trust" { crate::config::AuthType::Trust } else { crate::config::AuthType::MD5 };
             pool.users.insert("0".to_string(), u);
             cfg.pools.insert(dbname.clone(), pool);
@@ -111,7 +157,11 @@ pub(crate) mod verif_probe {
         crate::config::verif_probe::set_config(cfg);
         let map: ClientServerMap = Arc::new(parking_lot::Mutex::new(HashMap::new()));
         if crate::pool::ConnectionPool::from_config(map.clone()).await.is_err() { return json!({"error": "from_config failed"}); }
-        if let Some(p) = crate::pool::get_pool(&dbname, &user) { p.verif_mark_validated(); }
+        if let Some(p) = crate::pool::get_pool(&dbname, &user) {
+            p.verif_mark_validated();
+            // "authquery-fetch": the hash was not obtained when the pool was built (PostgreSQL unreachable then): it is fetched during the login
+            if kind == "authquery-fetch" { *p.auth_hash.write() = None; }
+        }
         let (mut client_end, pgcat_end) = duplex(1 << 16);
         let (read, write) = split(pgcat_end);
         let (tx, rx) = tokio::sync::broadcast::channel::<()>(1);
@@ -138,6 +188,7 @@ pub(crate) mod verif_probe {
                 let s = salt.unwrap();
                 let correct = if db.as_deref() == Some("pgcat") || db.as_deref() == Some("pgbouncer") {
                     crate::messages::md5_hash_password("admin", "adminpw", &s)
+                } else if authq { crate::messages::md5_hash_second_pass(&first_pass, &s)
                 } else { crate::messages::md5_hash_password(&user, "secret", &s) };
                 let payload: Vec<u8> = match attack.as_str() {
                     "correct" => correct,
@@ -167,6 +218,30 @@ pub(crate) mod verif_probe {
                 let rt = tokio::runtime::Builder::new_multi_thread().worker_threads(2).enable_all().build().unwrap();
                 let vv = v.clone();
                 Some(rt.block_on(async move { login(vv).await }))
+            }
+            "cancel_conn_stats" => {
+                // a client is registered in the statistics the way Client::handle registers it; a CancelRequest naming its process id (wrong key: the
+                // request is dropped silently) is served the way client_entrypoint serves it -- Client::cancel, handle(), drop.  Still listed?
+                let rt = tokio::runtime::Builder::new_multi_thread().worker_threads(2).enable_all().build().unwrap();
+                Some(rt.block_on(async move {
+                    let pid: i32 = 424_242 + (std::process::id() as i32 % 1000);
+                    let target = Arc::new(crate::stats::ClientStats::new(pid, "app", "u", "verif_cancel_pool", tokio::time::Instant::now()));
+                    target.register(target.clone());
+                    let listed_before = crate::stats::get_client_stats().contains_key(&pid);
+                    let map: ClientServerMap = Arc::new(parking_lot::Mutex::new(HashMap::new()));
+                    let (_client_end, pgcat_end) = duplex(1 << 12);
+                    let (read, write) = split(pgcat_end);
+                    let (tx, rx) = tokio::sync::broadcast::channel::<()>(1);
+                    let _keep = tx;
+                    let mut body = BytesMut::new(); body.put_i32(pid); body.put_i32(99);
+                    let r = match Client::cancel(read, write, "127.0.0.1:1".parse().unwrap(), body, map, rx).await {
+                        Ok(mut c) => { let r = c.handle().await; if r.is_err() { c.stats.disconnect(); } drop(c); format!("{:?}", r) }
+                        Err(e) => format!("cancel constructor failed: {:?}", e),
+                    };
+                    let listed_after = crate::stats::get_client_stats().contains_key(&pid);
+                    target.disconnect();
+                    json!({"target_listed_before": listed_before, "target_listed_after": listed_after, "handle_result": r})
+                }))
             }
             "client_map_op" => {
                 let rt = tokio::runtime::Builder::new_multi_thread().worker_threads(2).enable_all().build().unwrap();
